@@ -29,7 +29,7 @@ CLAIMED = {
          "Trusted: the reference parser in harness/src/gen_vm.rs; opening counts (IfElse 2, When/Unless/DupBlock 1) are taken from the property statement, not from the crate.",
          "DESIGN.md §2 C05"),
  "C10": (PBT + ": tagged parents through all crossover impls with a generated random stream, generated misuse of the exchange primitives, seeded coverage of all two-point segments (len <= 6) and of the segment classes for len 33..257, exact 2^-len law of uniform-crossover source patterns plus per-position rates and lag-agreement statistics on parents of 70..520 genes (Chernoff bound, alpha 1e-12, confirmation stage)",
-         "Exploration: hundreds of thousands (quick) to millions (thorough) of generated recombinations and primitive calls, parents of up to 60 (and, in a second pass, 700; thorough 500 / 3000) genes with four gene types of different width and ownership for the Vec<T> impls, a user-defined genome type (own Linear + Crossover impls, exchange primitives that fail at a generated call) through the generic impls, complete segment coverage for lengths 0..6 over 20000+ seeds, pattern law for lengths 1..4, independence at a distance (lags 1..257) for lengths 70..520.",
+         "Exploration: hundreds of thousands (quick) to millions (thorough) of generated recombinations and primitive calls, parents of up to 60 (and, in a second pass, 700; thorough 500 / 3000) genes with four gene types of different width and ownership for the Vec<T> impls, a user-defined genome type (own Linear + Crossover impls, exchange primitives that fail at a generated call) through the generic impls (structurally and against the exact pattern law), complete segment coverage for lengths 0..6 over 20000+ seeds, pattern law for lengths 1..4, independence at a distance (lags 1..257) for lengths 70..520.",
          "Trusted: rand 0.9 StdRng; the coverage check assumes every admissible segment has probability >= 1/(len+1)^2.",
          "DESIGN.md §2 C10"),
  "C11": (PBT + ": position-tagged genomes through WithRate / WithOneOverLength / all three Umad constructors with a generated random stream; structural parse of the child (slot grammar P0 N0 P1 N1 ...), generator-provenance of new genes, exact degenerate-rate cases",
@@ -45,7 +45,7 @@ CLAIMED = {
          "Trusted: the harness's delegating enums (combinator nodes are the real types) and its model of justified errors; Ok(member) is also accepted when lexicase is configured with more cases than results.",
          "DESIGN.md §2 C06"),
  "C07": (PBT + " for per-draw invariants (sample recovered from logged comparisons) plus seeded statistical tests of the k-subset uniformity law and the enumerated winner law (Chernoff/KL, alpha 1e-12, confirmation stage)",
-         "Exploration: hundreds of thousands of generated (population, k, stream) cases; for every n <= 7, k <= n the full subset and winner laws against 1e6 (quick) / 1e7 (thorough) seeded draws; for 14 larger configurations (n up to 300, k up to 40) and populations of 70000 / 2^20+3 members the inclusion, pair co-inclusion and pooled winner-rank laws; one selector value alternating between (or first used on) populations of other sizes, larger and smaller; agreement of successive winners; the named constructors; a quarter of the per-draw cases over a user-defined population type with strangers behind its live prefix; the same claims on the library's own EcIndividuals ordered by TestResults with result vectors of different lengths.",
+         "Exploration: hundreds of thousands of generated (population, k, stream) cases; for every n <= 7, k <= n the full subset and winner laws against 1e6 (quick) / 1e7 (thorough) seeded draws; for 14 larger configurations (n up to 300, k up to 40) and populations of 70000 / 2^20+3 members the inclusion, pair co-inclusion and pooled winner-rank laws; one selector value alternating between (or first used on) populations of other sizes, larger and smaller; agreement of successive winners; the named constructors; a quarter of the per-draw cases over a user-defined population type with strangers behind its live prefix; the same claims on the library's own EcIndividuals ordered by TestResults with result vectors of different lengths; a third of the law configurations through the type-erased form of the selector.",
          "Trusted: rand StdRng; the sampled subset is observed through the individuals' Ord::cmp, so an implementation comparing more than k individuals is judged by the winner law only.",
          "DESIGN.md §2 C07"),
  "C08": ("seeded statistical property testing against the exact lexicase law obtained by enumerating all case orders with an independent definition of 'better'; per-draw exact support check (winner has positive probability, never Pareto-dominated)",
@@ -61,7 +61,7 @@ CLAIMED = {
          "Trusted: rayon; the thread generator's words are treated as pairwise distinct when children have live randomness (64-bit collisions are negligible).",
          "DESIGN.md §2 C09"),
  "C14": (PBT + ": generated composition trees of the real combinators around logging probe operators, differential against a reference interpreter of the tree (call order, inputs, words drawn at each stream offset, stop at first failure, failing part recovered from the error); wrapper operators against the wrapped parts run by hand from equal generator states; statically typed compositions whose source() and diagnostic_source() chains must show the same levels down to the failing probe",
-         "Exploration: hundreds of thousands (quick) to millions (thorough) of generated compositions (depth <= 6) and wrapper pipelines, values up to 150000-element vectors and 4 KiB outputs, zero-sized outputs; sixteen kinds of statically typed chains (tuples, arrays, Then, And, Map, Repeat, references, wide and unit payloads, zero-sized error types incl. the library's own EmptyPopulation under apply_twice, then / and chains as the mapped operator of a Vec map with a log of the order of calls).",
+         "Exploration: hundreds of thousands (quick) to millions (thorough) of generated compositions (depth <= 6) and wrapper pipelines, values up to 150000-element vectors and 4 KiB outputs, zero-sized outputs; sixteen kinds of statically typed chains (tuples, arrays, Then, And, Map, Repeat, references, wide and unit payloads, zero-sized error types incl. the library's own EmptyPopulation under apply_twice, then / and chains as the mapped operator of a Vec map with a log of the order of calls, apply_n_times::<3..5> over a probe whose result tells the applications apart).",
          "Trusted: the reference interpreter; the failing part is read from Debug/Display text of the crate's error types (fields private) and reported unobservable if that text changes.",
          "DESIGN.md §2 C14"),
  "C15": (PBT + ": order laws and operator agreement on exhaustive extreme triples and generated values, result vectors (built through 12 kinds of source iterator, incl. imprecise size hints) vs independently computed totals (i64 exactly; f64 exactly for exactly summable values and within the rounding bound otherwise; i32, u64), individuals vs their results, generator/scorer provenance with a recording scorer",
@@ -69,7 +69,7 @@ CLAIMED = {
          "Trusted: i128 reference sums; TestResults == is not required to agree with cmp.",
          "DESIGN.md §2 C15"),
  "C16": (PBT + ": call histories over a registry of operators, each call run twice from cloned instrumented generators (results, words consumed, next word, sequence of generator entry points used), repeats within a history, a third run on another thread; Push programs run twice and with permuted input declaration order",
-         "Exploration: 150000 + 60000 (quick) to millions (thorough) of generated histories / programs, a tenth of the calls with large arguments (populations up to 300, ragged many-case lexicase, genomes of hundreds of genes, tie-laden populations of 520..1400 with small tournaments); absence of hidden inputs can only be refuted by sampling.",
+         "Exploration: 150000 + 60000 (quick) to millions (thorough) of generated histories / programs, a tenth of the calls with large arguments (populations up to 300, ragged many-case lexicase, genomes of hundreds of genes, tie-laden populations of 520..1400 with small tournaments; Push programs also with 1100 unrelated variable names created between building the program and declaring its inputs); absence of hidden inputs can only be refuted by sampling.",
          "Trusted: the word-counting generator wrapper around StdRng.",
          "DESIGN.md §2 C16"),
  "C17": ("generated compile probe (one erased flavour per line, cargo check JSON diagnostics) deciding existence of all 280 flavours, then " + PBT + ": concrete value vs every erased flavour from cloned instrumented generators (result identity, error text and downcast, words consumed, next word, sequence of next_u32 / next_u64 / fill_bytes(len) calls), with probe implementations that draw through every generator entry point",
@@ -81,7 +81,7 @@ CLAIMED = {
          "Trusted: rand Uniform / Choose (the law is about how the crate uses them).",
          "DESIGN.md §2 C18"),
  "C19": ("seeded source generation + generated compile probes and a generated test program: builder call chains are produced from a model of the type-state automaton; must-compile / must-not-compile expectations are decided per line from cargo check JSON diagnostics, legal chains are executed and compared with the model's predicted state",
-         "Exploration: 6 (quick) / 30 (thorough) generated state structs in two variants plus PushState, 260 / 2500 classified call chains, 280+ / 4600+ executed legal chains per run; different seeds generate different structs and chains; the stack type is spelled by short, crate-qualified and absolute paths; value lists are also given as lazy iterators of 2^40 elements over tiny maxima (must be rejected or truncated without being drained); maxima of usize::MAX with second batches whose length added to the size does not fit in a usize; global resizes after a program was loaded; builder values overwritten by Default::default() at a later type state.",
+         "Exploration: 6 (quick) / 30 (thorough) generated state structs in two variants plus PushState, 260 / 2500 classified call chains, 280+ / 4600+ executed legal chains per run; different seeds generate different structs and chains; the stack type is spelled by short, crate-qualified and absolute paths; value lists are also given as lazy iterators of 2^40 elements over tiny maxima (must be rejected or truncated without being drained); maxima of usize::MAX with second batches whose length added to the size does not fit in a usize; global resizes after a program was loaded; builder values overwritten by Default::default() at a later type state; every third generated stack carries #[stack(ignore_doctests)].",
          "Trusted: rustc diagnostics, the harness's automaton model; chains the statement does not decide are generated but not judged; failing chains are reported as generated (no shrinking - one chain is the unit).",
          "DESIGN.md §2 C19"),
 }
